@@ -59,10 +59,10 @@ def codes_of_job(job):
     """(code, nominal exact metres) in increasing distance"""
     kind, y, g, lo, hi, step, extra = job
     if kind == 'bare':
-        ds = sorted(set(range(lo, hi, step)) | {d for d in extra if lo <= d < hi})
+        ds = sorted(set(range(lo, hi, step)) | {d for d in extra if d < hi})          # extras are absolute (hazards below a seeded offset count too)
         return [(str(d), d) for d in ds]
     out = []
-    cs = sorted(set(range(lo, hi, step)) | {c for c in extra if lo <= c < hi})
+    cs = sorted(set(range(lo, hi, step)) | {c for c in extra if c < hi})
     for c in cs:                                    # c = hundredths of a km / mile
         if c % 100 == 0: txt = '%d' % (c // 100)
         elif c % 10 == 0: txt = '%d.%d' % (c // 100, c // 10 % 10)
